@@ -88,38 +88,25 @@ def unchanged(o, snap):
     return json_equal(o, deep) and now == ids
 
 
-def one(seed, i, has_globals, gfields, res):
-    rng = random.Random("%s:C13:%d" % (seed, i))
-    kind = rng.choice(KINDS)
-    nf = rng.randint(1, 4)
+def make_template(rng, name, nf=None):
+    """A type definition: fields declared by a custom serializer (counted, may fail on demand), Field.for_types / the fields()
+    factory (identity) or Field.for_value (always the constant). The serializers consult `state`, which each case resets."""
+    nf = nf or rng.randint(1, 4)
     keys = rng.sample(gen.IDENT_KEYS, nf)
     sers = {k: rng.choice(list(SERS)) for k in keys}
-    mode = rng.choice(["ok", "ok", "fail", "fail", "missing"])
-    failing = set()
-    missing = None
-    if mode == "fail":
-        failing = set(k for k in keys if rng.random() < 0.5) or {rng.choice(keys)}
-    elif mode == "missing":
-        missing = rng.choice(keys)
-    calls = {k: 0 for k in keys}
+    decl = {k: rng.choice(["custom", "custom", "for_types", "factory", "for_value"]) for k in keys}
+    state = {"calls": {k: 0 for k in keys}, "failing": set()}
 
     def make_ser(k):
         f = SERS[sers[k]]
 
         def s(v):
-            calls[k] += 1
-            if k in failing:
+            state["calls"][k] += 1
+            if k in state["failing"]:
                 raise excs.SerFault("serializer of %s failed" % k)
             return f(v)
         return s
 
-    # how each field is declared: a custom serializer (counted, may fail), Field.for_types / the fields() factory (identity),
-    # or Field.for_value (always serializes to the constant)
-    decl = {k: rng.choice(["custom", "custom", "for_types", "factory", "for_value"]) for k in keys}
-    if mode == "fail":
-        for k in failing:
-            decl[k] = "custom"
-    values = {k: gen.gen_value(rng, rng.choice([0, 1, 2])) for k in keys}
     fields = []
     for k in keys:
         if decl[k] == "custom":
@@ -127,10 +114,48 @@ def one(seed, i, has_globals, gfields, res):
         elif decl[k] == "for_types":
             fields.append(Field.for_types(k, [str, int, float, bool, list, dict, None], ""))
         elif decl[k] == "factory":
-            t = type(values[k]) if type(values[k]) in (str, int, float, bool, list, dict) else None
-            fields.extend(fields_factory(**{k: t}))
+            fields.extend(fields_factory(**{k: rng.choice([str, int, list, dict, None])}))
         else:
             fields.append(Field.for_value(k, "const-%s" % k, ""))
+    tpl = {"name": name, "keys": keys, "sers": sers, "decl": decl, "fields": fields, "state": state, "types": {}}
+    return tpl
+
+
+def tpl_type(tpl, what):
+    """The template's MessageType / ActionType objects, created once."""
+    if what not in tpl["types"]:
+        mt, at = "c13:m:" + tpl["name"], "c13:a:" + tpl["name"]
+        if what == "message":
+            tpl["types"][what] = MessageType(mt, tpl["fields"], "")
+        elif what == "action_start":
+            tpl["types"][what] = ActionType(at, tpl["fields"], [], "")
+        else:
+            tpl["types"][what] = ActionType(at, [], tpl["fields"], "")
+    return tpl["types"][what]
+
+
+def one(seed, i, has_globals, gfields, res, templates=()):
+    rng = random.Random("%s:C13:%d" % (seed, i))
+    kind = rng.choice(KINDS)
+    nf = rng.randint(1, 4)
+    # Type definitions are long-lived objects in real programs: most cases re-use one of the batch's templates (same Field /
+    # MessageType / ActionType objects, new values, new failing set), the others define a fresh type.
+    tpl = rng.choice(templates) if (templates and rng.random() < 0.7) else make_template(rng, "c%d" % i, nf)
+    keys, sers, decl, fields, state = tpl["keys"], tpl["sers"], tpl["decl"], tpl["fields"], tpl["state"]
+    mode = rng.choice(["ok", "ok", "fail", "fail", "missing"])
+    failing = set()
+    missing = None
+    customs = [k for k in keys if decl[k] == "custom"]
+    if mode == "fail" and not customs:
+        mode = "ok"
+    if mode == "fail":
+        failing = set(k for k in customs if rng.random() < 0.5) or {rng.choice(customs)}
+    elif mode == "missing":
+        missing = rng.choice(keys)
+    calls = {k: 0 for k in keys}
+    state["calls"] = calls
+    state["failing"] = failing
+    values = {k: gen.gen_value(rng, rng.choice([0, 1, 2])) for k in keys}
     extra = {}
     if rng.random() < 0.4:
         extra = {"undeclared_" + str(j): gen.gen_value(rng, 1) for j in range(rng.randint(1, 2))}
@@ -150,14 +175,14 @@ def one(seed, i, has_globals, gfields, res):
     problems = []
     ctx = None  # (uuid, level prefix) where reports must land, or None for "own tasks"
     target = None  # predicate identifying the typed message on the tape
-    mt = "c13:m%d" % i
-    at = "c13:a%d" % i
+    mt = "c13:m:" + tpl["name"]
+    at = "c13:a:" + tpl["name"]
     raised = None
     expected = {k: (SERS[sers[k]](v) if decl[k] == "custom" else ("const-%s" % k if decl[k] == "for_value" else v)) for k, v in values.items()}
     before_len = [0]
     try:
         if kind == "msg_nocontext":
-            MessageType(mt, fields, "").log(**supplied)
+            tpl_type(tpl, "message").log(**supplied)
             target = lambda m: m.get("message_type") == mt
         elif kind == "msg_call_write":
             import warnings
@@ -165,17 +190,17 @@ def one(seed, i, has_globals, gfields, res):
                 warnings.simplefilter("ignore")
                 with start_action(action_type="outer") as outer:
                     before_len[0] = len(tape.entries)
-                    MessageType(mt, fields, "")(**supplied).write()
+                    tpl_type(tpl, "message")(**supplied).write()
             ctx = outer
             target = lambda m: m.get("message_type") == mt
         elif kind == "msg_in_action":
             with start_action(action_type="outer") as outer:
                 before_len[0] = len(tape.entries)
-                MessageType(mt, fields, "").log(**supplied)
+                tpl_type(tpl, "message").log(**supplied)
             ctx = outer
             target = lambda m: m.get("message_type") == mt
         elif kind in ("action_start", "as_task_start"):
-            A = ActionType(at, fields, [], "")
+            A = tpl_type(tpl, "action_start")
             with start_action(action_type="outer") as outer:
                 before_len[0] = len(tape.entries)
                 a = (A if kind == "action_start" else A.as_task)(**supplied)
@@ -183,7 +208,7 @@ def one(seed, i, has_globals, gfields, res):
             ctx = outer
             target = lambda m: m.get("action_type") == at and m.get("action_status") == "started"
         elif kind == "action_success":
-            A = ActionType(at, [], fields, "")
+            A = tpl_type(tpl, "action_success")
             with start_action(action_type="outer") as outer:
                 with A() as a:
                     a.add_success_fields(**supplied)
@@ -191,7 +216,7 @@ def one(seed, i, has_globals, gfields, res):
             ctx = outer
             target = lambda m: m.get("action_type") == at and m.get("action_status") == "succeeded"
         elif kind == "action_failure":
-            A = ActionType(at, [], fields, "")
+            A = tpl_type(tpl, "action_success")
             with start_action(action_type="outer") as outer:
                 try:
                     with A() as a:
@@ -207,7 +232,7 @@ def one(seed, i, has_globals, gfields, res):
             msg.update(task_uuid="ext-%d" % i, task_level=[3, 1], timestamp=1.5, message_type=mt)
             snap = snapshot(msg)
             supplied = msg
-            ser = MessageType(mt, fields, "")._serializer if kind == "write_serializer" else None
+            ser = tpl_type(tpl, "message")._serializer if kind == "write_serializer" else None
             if rng.random() < 0.5:
                 with start_action(action_type="outer") as outer:
                     before_len[0] = len(tape.entries)
@@ -446,8 +471,10 @@ def run_case(spec):
     if spec["globals"]:
         gfields = {"g_host": "h1", "g_n": 7}
         add_global_fields(**gfields)
+    trng = random.Random("%s:C13:tpl:%d" % (spec["seed"], spec["lo"]))
+    templates = [make_template(trng, "t%d" % j) for j in range(6)]
     for i in range(spec["lo"], spec["hi"]):
-        one(spec["seed"], i, spec["globals"], gfields, res)
+        one(spec["seed"], i, spec["globals"], gfields, res, templates)
     return res
 
 
